@@ -14,7 +14,7 @@ BOUNDS = {
     'thorough': 'documents with 2 sentences x 3 tokens, 2 symbolic dictionary keys',
 }
 OUTSIDE = 'numpy itself (a shape/masked-assignment stand-in in symbolic runs; replays use real numpy float32 arrays); larger documents'
-ASSUMPTIONS = ['reading: membership of dictionary categories in the inventory is required for the configuration that ships a dictionary (config_en: cat_dict.en within targets.en); config_rebank and config_ja configure none',
+ASSUMPTIONS = ['reading: membership of dictionary categories in the inventory is required for every shipped configuration (config*.jsonnet) that configures a dictionary, against the inventory that configuration imports (on the current tree: config_en pairs cat_dict.en with targets.en, config_ja has an empty dictionary, config_rebank none)',
                'numpy arrays are replaced by a 2-D stand-in supporting shape and arr[i, boolean_mask] = v in symbolic runs']
 
 SYMBOLIC = env.SYMBOLIC
@@ -248,10 +248,35 @@ def ground_stage():
             [ids[Category.parse(c)] for c in cs]
         except KeyError as e:
             bad.append(('cat_dict.en', w, 'entry not applicable: %r' % (e,)))
+    # every shipped configuration: the dictionary it configures (if any) against the inventory it configures
+    import glob
+    import re as _re
     configs = {}
-    for cfg in ('config_en', 'config_rebank', 'config_ja'):
-        p = os.path.join(ground.MODELS, cfg + '.jsonnet')
-        if os.path.exists(p):
-            configs[cfg] = 'cat_dict' in open(p, encoding='utf-8').read()
+    for p in sorted(glob.glob(os.path.join(ground.MODELS, 'config*.jsonnet'))):
+        cfg = os.path.basename(p)[:-len('.jsonnet')]
+        text = open(p, encoding='utf-8').read()
+        imports = {m.group(1): (m.group(2), m.group(3)) for m in _re.finditer(r"local\s+(\w+)\s*=\s*\(import\s+'([^']+)'\)\.(\w+)\s*;", text)}
+        fields = {m.group(1): m.group(2) for m in _re.finditer(r"^\s*(cat_dict|targets)\s*:\s*(\w+)\s*,?\s*$", text, flags=_re.M)}
+        has = 'cat_dict' in fields or bool(_re.search(r'^\s*cat_dict\s*:', text, flags=_re.M))
+        configs[cfg] = has
+        if not has:
+            continue
+        if _re.search(r'^\s*cat_dict\s*:\s*\{\s*\}\s*,?\s*$', text, flags=_re.M):
+            configs[cfg] = dict(dictionary='inline, empty', dictionary_categories=0, missing_from_inventory=0)
+            continue
+        if fields.get('cat_dict') not in imports or fields.get('targets') not in imports:
+            # neither "name bound to an import" nor an empty literal: outside what this stage can read - refuse rather than guess
+            raise RuntimeError('%s configures cat_dict/targets in a form the jsonnet-subset reader does not resolve' % cfg)
+        (df, dfield), (tf, tfield) = imports[fields['cat_dict']], imports[fields['targets']]
+        try:
+            dct = ground.load_jsonnet(os.path.join(ground.MODELS, df))[dfield]
+            inv = {Category.parse(t) for t in ground.load_jsonnet(os.path.join(ground.MODELS, tf))[tfield]}
+        except Exception as e:
+            bad.append((cfg, df + '/' + tf, 'not readable: ' + type(e).__name__))
+            continue
+        miss = sorted({c for cs in dct.values() for c in cs if Category.parse(c) not in inv})
+        configs[cfg] = dict(dictionary=df, inventory=tf, dictionary_categories=len({c for cs in dct.values() for c in cs}), missing_from_inventory=len(miss))
+        for c in miss[:5]:
+            bad.append((cfg, c, 'category of %s is not in %s: apply_category_filters raises KeyError under this configuration' % (df, tf)))
     return dict(ground_files={k: len(v) for k, v in files.items() if not k.startswith('tests/')}, ground_strings=total, dictionary_words=nwords,
                 configs_with_dictionary=configs, ground_bad=bad[:10]), bad
